@@ -150,7 +150,7 @@ fn diags_of_tokens(ts: TokenStream) -> Result<Vec<Value>, String> {
     Ok(out)
 }
 
-fn sim_table(case: &Value) -> Vec<Value> {
+pub fn sim_table(case: &Value) -> Vec<Value> {
     case["pairs"]
         .as_array()
         .map(|ps| {
